@@ -278,6 +278,7 @@ def handleFault : Handler := fun inp out => do
   let kindTag := opTag opIn
   let mut mismatch := fs.mismatch
   let mut fails : List String := []
+  let mut failsOther : List (String × String) := []
   let mut tags : List String := ["op:" ++ kindTag]
   let mut fired := 0
   -- one comparison of the model with a real run from the prefix state
@@ -342,14 +343,22 @@ def handleFault : Handler := fun inp out => do
       let hit := (tr.filter (·.endsWith "!deadlock")).map entryMethod
       if !(hit.all (fun m => m = "BeginTX" || m = "ReadLogWithIdempotencyKey" || m = "Commit")) then
         fails := fails ++ [s!"{label}: deadlock inside the operation was not retried"]
+    -- C14 / C13 on the real outputs: a business refusal keeps its class when the attempt
+    -- that meets it is a retry after deadlocks (the retried attempt sees the same tables)
+    if didFire && onlyKinds ["deadlock"] && !andCommit && rErr ≠ "deadlock" && rErr ≠ baseErr then
+      if baseErr = "reference-conflict" then
+        failsOther := failsOther ++ [("C14", s!"{label}: reference conflict met on a retried attempt answered '{rErr}'")]
+      if baseErr = "invalid-idempotency-input" then
+        failsOther := failsOther ++ [("C13", s!"{label}: idempotency-key reuse with another input, met on a retried attempt, answered '{rErr}'")]
     let disc := traceDiscipline (← strArrField real "trace")
     if disc ≠ "" then fails := fails ++ [s!"{label}: handle discipline: {disc}"]
     tags := tags ++ [s!"{fk}{if andCommit then "+commit" else ""}{if boolFieldD opIn "dry" then "/dry" else ""}:" ++ (if !didFire then "not-reached" else if rErr = "" then "ok" else rErr)]
   let sel (p : String) : Bool := want = "" || p = want
-  let selFails := if sel "C07" then fails else []
+  let selFails := (if sel "C07" then fails else []) ++ ((failsOther.filter (sel ·.1)).map (fun (p, w) => s!"{p}: {w}"))
   pure { model := match mismatch with | some m => m.toJson | none => Json.null,
          agree := mismatch.isNone, prop := selFails.isEmpty, propModel := true,
-         nontrivial := fired ≥ 3 && baseErr = "",
+         nontrivial := fired ≥ 3 && (baseErr = "" || (want = "C14" && baseErr = "reference-conflict") ||
+                                      (want = "C13" && baseErr = "invalid-idempotency-input")),
          tags := dedup tags, note := "; ".intercalate (selFails.take 5) }
 
 /-! ### handler "ctrlimport" -/
@@ -447,7 +456,10 @@ def handleImport : Handler := fun inp out => do
     stepNo := stepNo + 1
   -- C11 / C08: the copy equals the source
   if variant = "ok" || variant = "twoParts" then
-    let d := srcReal.diff before
+    -- volumes are compared as values: zero rows left by balance locks of the live path
+    -- (never created by importLog) are not a difference
+    let d := srcReal.normVols.diff before.normVols
+    if d = "" && srcReal.diff before ≠ "" then tags := tags ++ ["zero-row-difference"]
     if d ≠ "" then
       if d = "accounts" then
         let cols := accountsDiff srcReal.accounts before.accounts
@@ -473,7 +485,7 @@ def handleImport : Handler := fun inp out => do
     ({ facade := true, state := dst.state, inUse := dst.inUse, real := before, charts := fs.charts } : FoldSt)
   -- on a copy that already differs from its source (findings above) the journal reading
   -- of accounts cannot hold either: reported once, through the C11 / C08 signatures
-  let copyExact := (variant = "ok" || variant = "twoParts") && srcReal.diff before = ""
+  let copyExact := (variant = "ok" || variant = "twoParts") && srcReal.normVols.diff before.normVols = ""
   let fs2 := if copyExact then fs2 else
     { fs2 with propFail := fs2.propFail.filter (fun (p, _, _) => p ≠ "C17" && p ≠ "C18") }
   if mismatch.isNone then mismatch := fs2.mismatch.map (fun m => { m with field := "extra:" ++ m.field })
